@@ -283,6 +283,7 @@ def tie(tier, seed, replay):
             "views of the delta version are compared modulo the tuples the same view of total serves: class-level self connections of a Delta depend on the hash order of `new` (TrRelUnionFind::add(x,x) on a new x records (s,s)); those tuples are all served by total",
             "Rc<TrRelUnionFind> sharing between a Delta and total is modelled by value; Rc::get_mut(..).unwrap() in the merge is assumed to succeed (the delta's clone is dropped two statements earlier)",
             "UF/TrUfModel.v (C18) as the model of TrRelUnionFind",
+            "program-level theorems (c12_program_binary / _ternary): Engine/EvalProv.v prun_plan as the model of generated code around a provider-backed relation (shared with C10 / C11; its correspondence with the real macro output is the PROG half of this tie and C01); the providers it is run with are compositions of the model functions compared here (c12_binary_provider_is_model, c12_ternary_provider_is_model), carried to integer tuples along a bijection Z <-> nat by Byods/TrRelAdapter.v",
         ],
         assumptions=[
             "element and key type u32 in the harness / i32 in programs, nat in the model (only Eq + Hash are used)",
